@@ -18,6 +18,7 @@ import Gzx.Driver.C10
 import Gzx.Driver.C11
 import Gzx.Driver.C12
 import Gzx.Driver.C12DM
+import Gzx.Driver.C12Enc2
 import Gzx.Driver.C13
 import Gzx.Driver.C14
 import Gzx.Driver.C15
@@ -52,6 +53,7 @@ def dispatch (line : String) : String :=
   | "c11" :: rest => C11.handle rest
   | "c12" :: rest => C12.handle rest
   | "c12dm" :: rest => C12DM.handle rest
+  | "c12e" :: rest => C12Enc2.handle rest
   | "c13" :: rest => C13.handle rest
   | "c14" :: rest => C14.handle rest
   | "c15" :: rest => C15.handle rest
